@@ -20,9 +20,16 @@
                                                                     list_summary; the statistics themselves are
                                                                     the model's definitions, tied by correspondence)
    * the same at the level of RunAnalysis.measure (the aggregate is taken over exactly the outputs
-     that have a test list, whatever metrics precede or follow)   -> run_level_is_pooled *)
-From Coq Require Import ZArith QArith Qabs List Bool.
-From LK Require Import Lib.QLib Gen.C07_agg Model.C07_metrics Proofs.C07_proofs Proofs.C07_main Proofs.C07_global.
+     that have a test list, whatever metrics precede or follow)   -> run_level_is_pooled
+   * "for each output key": the result frame carries the output keys; row i sits under the key of
+     output i, and the key-by-key matcher the case files use to compare the implementation's frame
+     (index tuples + rows, in frame order) accepts only re-orderings that keep every row under its
+     own key                                                      -> rows_under_own_key, keyed_match_sound
+   * "exactly the items that have both a prediction and a true rating": an aligned pair with
+     NEITHER value is not missing on one side -- no disposition pair raises on it, and (by
+     ignored_excluded_everywhere) it is in no denominator        -> both_missing_tolerated *)
+From Coq Require Import ZArith QArith Qabs List Bool Permutation.
+From LK Require Import Lib.QLib Gen.C07_agg Model.C07_metrics Proofs.C07_proofs Proofs.C07_main Proofs.C07_global Proofs.C07_keys.
 Import ListNotations.
 Open Scope Q_scope.
 
@@ -105,6 +112,30 @@ Theorem summary_of_filled : list_summary_fill = true /\ list_summary_stats = [SM
 Proof. exact summary_of_filled_l. Qed.
 Print Assumptions summary_of_filled.
 
+Theorem rows_under_own_key : forall ofs tfs ms outputs test a,
+  measure ofs tfs ms outputs test = OK a ->
+  map fst (keyed_table outputs (a_table a)) = map fst outputs /\
+  forall i key o, nth_error outputs i = Some (key, o) ->
+    exists row, nth_error (keyed_table outputs (a_table a)) i = Some (key, row) /\
+                nth_error (a_table a) i = Some row.      (* the row list_value_is_metric speaks about *)
+Proof. exact keyed_rows_l. Qed.
+Print Assumptions rows_under_own_key.
+
+Theorem keyed_match_sound : forall tol model index obs,
+  (agree_keyed tol model index obs = true ->
+   exists rows, Permutation model (combine index rows) /\ length rows = length index /\
+                Forall2 (fun r o => all2 (agree_res tol) r o = true) rows obs) /\
+  (forall rows, length index = length rows -> Forall2 (fun r o => all2 (agree_res tol) r o = true) rows obs ->
+   agree_keyed tol (combine index rows) index obs = true).
+Proof. intros. split; [apply agree_keyed_sound|intros rows; apply agree_keyed_self]. Qed.
+Print Assumptions keyed_match_sound.
+
+Theorem both_missing_tolerated : forall ms mt preds truth,
+  (forall pt, In pt (join preds truth) -> (fst pt = None <-> snd pt = None)) ->
+  exists al, align ms mt preds truth = Some al.
+Proof. exact both_missing_tolerated_l. Qed.
+Print Assumptions both_missing_tolerated.
+
 (* non-vacuity: a run with an ignored pair, an output without test data and a projected key *)
 Example c07_nonvacuous :
   let o1 : ilist := [(1%Z, Some 3); (2%Z, Some 4); (3%Z, None)] in
@@ -115,3 +146,17 @@ Example c07_nonvacuous :
             [([1; 0]%Z, o1); ([2; 0]%Z, o1)] [([1]%Z, t1)] = OK a /\
     length (a_table a) = 2%nat.
 Proof. cbv zeta. eexists. eexists. split; [reflexivity|]. split; [reflexivity|]. split; [vm_compute; reflexivity|reflexivity]. Qed.
+
+(* non-vacuity of the keyed reading: two-field keys in non-sorted order, an item with neither a score nor a
+   rating under error/error; the frame sorted TOGETHER with its rows is accepted, the frame whose index alone
+   was sorted (rows left in collection order) is rejected *)
+Example c07_keyed_nonvacuous :
+  let o1 : ilist := [(1%Z, Some 3); (2%Z, None)] in
+  let o2 : ilist := [(1%Z, Some 6)] in
+  let t1 : ilist := [(1%Z, Some 4)] in
+  let outs := [([2; 1]%Z, o1); ([1; 2]%Z, o2)] in
+  exists a,
+    measure [0; 1]%nat [0; 1]%nat [mae_metric DError DError None] outs [([2; 1]%Z, t1); ([1; 2]%Z, t1)] = OK a /\
+    agree_keyed tol64 (keyed_table outs (a_table a)) [[1; 2]; [2; 1]]%Z [[Some 2]; [Some 1]] = true /\
+    agree_keyed tol64 (keyed_table outs (a_table a)) [[1; 2]; [2; 1]]%Z [[Some 1]; [Some 2]] = false.
+Proof. cbv zeta. eexists. split; [vm_compute; reflexivity|]. split; vm_compute; reflexivity. Qed.
